@@ -223,8 +223,11 @@ func loadOnce(o LoadOpts) (*World, error) {
 		Env:     env,
 		Overlay: o.Overlay,
 	}
+	// -trimpath: the build cache entries of a scratch copy do not depend on where the copy lives, so identical
+	// packages of different copies share them (the cache would otherwise grow by a few MB per analysed patch)
+	conf.BuildFlags = []string{"-trimpath"}
 	if o.Tags != "" {
-		conf.BuildFlags = []string{"-tags", o.Tags}
+		conf.BuildFlags = append(conf.BuildFlags, "-tags", o.Tags)
 	}
 	pkgs, err := packages.Load(conf, "./...")
 	if err != nil {
